@@ -394,68 +394,90 @@ def inotify_header(ctx, RH, P) -> None:
         "decoded unsigned it passes the filter and the wd->path lookup raises KeyError in the reader thread), mask / cookie / len are unsigned 32-bit",
         f"{pf.module.relpath}:{call.lineno}",
     )
-    # header-size terms: whatever expression is added to the cursor in the loop bound, the name slice and the advance
+    # one iteration of the decoding loop, symbolically: with c the cursor on entry, H = calcsize(format), n = the record's len
+    # field:  the guard is  c + H <= len(buffer),  the head is unpacked at c,  the name is  buffer[c+H : c+H+n],  the next cursor is
+    # c + H + n.  Decided as linear forms over {c, n} on the enumerated path of the loop body, so that literals, named constants,
+    # Struct.size and intermediate variables are all the same to the rule.
+    from ..pse import Cfg
+
     local = {}
     for n in ast.walk(pf.node):
         if isinstance(n, ast.Assign) and len(n.targets) == 1 and isinstance(n.targets[0], ast.Name):
             local.setdefault(n.targets[0].id, []).append(n.value)
 
-    def val(e, depth=0):
-        if isinstance(e, ast.Constant) and isinstance(e.value, int):
+    def const(e):
+        if isinstance(e, ast.Constant) and isinstance(e.value, int) and not isinstance(e.value, bool):
             return e.value
         if isinstance(e, ast.Attribute) and e.attr == "size" and dotted(e.value) in structs:
             return struct.calcsize(structs[dotted(e.value)])
+        if isinstance(e, ast.Attribute) and e.attr == "size" and isinstance(e.value, ast.Call) and dotted(e.value.func) == "struct.Struct" and e.value.args:
+            f = P.fold(e.value.args[0], pf.module)
+            return struct.calcsize(f) if isinstance(f, str) else None
         if isinstance(e, ast.Call) and dotted(e.func) == "struct.calcsize" and e.args:
             f = P.fold(e.args[0], pf.module)
             return struct.calcsize(f) if isinstance(f, str) else None
-        if isinstance(e, ast.Name) and depth < 3:
-            vs = local.get(e.id, [])
-            if len(vs) == 1:
-                return val(vs[0], depth + 1)
+        if isinstance(e, (ast.Name, ast.Attribute)):
             v = P.fold(e, pf.module)
-            return v if isinstance(v, int) else None
-        v = P.fold(e, pf.module)
-        return v if isinstance(v, int) else None
+            return v if isinstance(v, int) and not isinstance(v, bool) else None
+        return None
 
-    def size_terms(expr, skip_names):
-        """Constant-valued operands of a sum, other than the cursor and the record's own length."""
-        out = []
-        stack = [expr]
-        while stack:
-            x = stack.pop()
-            if isinstance(x, ast.BinOp) and isinstance(x.op, ast.Add):
-                stack += [x.left, x.right]
-            elif isinstance(x, ast.Name) and x.id in skip_names:
-                continue
-            else:
-                v = val(x)
-                if v is not None and v > 1:
-                    out.append((v, x))
-        return out
+    def lin(e):
+        """{'c': k, 'n': k, '1': k} or None."""
+        if isinstance(e, ast.BinOp) and isinstance(e.op, (ast.Add, ast.Sub)):
+            a, b = lin(e.left), lin(e.right)
+            if a is None or b is None:
+                return None
+            sg = 1 if isinstance(e.op, ast.Add) else -1
+            out = dict(a)
+            for k, v in b.items():
+                out[k] = out.get(k, 0) + sg * v
+            return {k: v for k, v in out.items() if v}
+        if isinstance(e, ast.Name) and re.fullmatch(r"\w+@L\d+", e.id):
+            return {"c": 1}
+        if isinstance(e, ast.Subscript) and isinstance(e.value, ast.Call) and isinstance(e.value.func, ast.Attribute) and e.value.func.attr in ("unpack_from", "unpack") and isinstance(e.slice, ast.Constant) and e.slice.value == 3:
+            return {"n": 1}
+        v = const(e)
+        return None if v is None else ({"1": v} if v else {})
 
-    cursor = None
-    for n in ast.walk(pf.node):
-        if isinstance(n, ast.AugAssign) and isinstance(n.op, ast.Add) and isinstance(n.target, ast.Name):
-            cursor = n.target.id
-    lits = []
-    for n in ast.walk(pf.node):
-        if isinstance(n, ast.While) and isinstance(n.test, ast.Compare):
-            for v, x in size_terms(n.test.left, {cursor, len_name}):
-                lits.append(("bound", v, x.lineno))
-        if isinstance(n, ast.Subscript) and isinstance(n.slice, ast.Slice):
-            for part in (n.slice.lower, n.slice.upper):
-                if part is not None:
-                    for v, x in size_terms(part, {cursor, len_name}):
-                        lits.append(("slice", v, x.lineno))
-        if isinstance(n, ast.AugAssign) and isinstance(n.op, ast.Add):
-            for v, x in size_terms(n.value, {cursor, len_name}):
-                lits.append(("advance", v, x.lineno))
-            names = {x.id for x in ast.walk(n.value) if isinstance(x, ast.Name)}
-            ctx.check(len_name in names, RH, "advance adds the record's own name length", f"the cursor advances by `{ast.unparse(n.value)}`", f"{pf.module.relpath}:{n.lineno}")
-    kinds = {k for k, v, l in lits}
-    ctx.check({"bound", "slice", "advance"} <= kinds, RH, "header size used in bound, slice and advance", f"header-size terms found only in {sorted(kinds)}", pf.loc)
-    for k, v, l in lits:
-        ctx.check(v == size, RH, f"{k} header size equals calcsize({fmt!r})={size}", f"the {k} uses header size {v}, the unpack format has {size} bytes: records are mis-aligned after the first", f"{pf.module.relpath}:{l}")
+    paths = Enumerator(Cfg(P)).run(pf)
+    loops = [e for p in paths for e in p.evs if e.kind == "loop" and e.extra.get("kind") == "while"]
+    if not loops:
+        raise AnalysisError("anchor vanished: decoding loop of Inotify._parse_event_buffer")
+    bodies = [b for b in loops[0].extra["paths"] if b.outcome is NORMAL or b.outcome == ("continue",)]
+    if not bodies:
+        raise AnalysisError("decoding loop: no iteration path")
+    where = f"{pf.module.relpath}:{loops[0].line}"
+    H = {"1": size} if size else {}
+    for b in bodies:
+        guard = next((e for e in b.evs if e.kind == "cond" and e.extra.get("truth") is True and isinstance(e.extra.get("term"), ast.Compare) and "len(" in e.text), None)
+        g_ok = False
+        if guard is not None:
+            t = guard.extra["term"]
+            if isinstance(t.ops[0], ast.LtE) and ast.unparse(t.comparators[0]).startswith("len("):
+                g_ok = lin(t.left) == {"c": 1, **H}
+            elif isinstance(t.ops[0], ast.GtE) and ast.unparse(t.left).startswith("len("):
+                g_ok = lin(t.comparators[0]) == {"c": 1, **H}
+        ctx.check(g_ok, RH, "decoder: the loop guard is cursor + header size <= len(buffer)", f"the guard `{guard.text if guard is not None else None}` is not `cursor + {size} <= len(buffer)`: a truncated head is unpacked (struct.error in the reader thread) or a complete last record is dropped", where)
+        un = [e for e in b.evs if e.kind == "call" and isinstance(e.extra.get("term"), ast.Call) and isinstance(e.extra["term"].func, ast.Attribute) and e.extra["term"].func.attr in ("unpack_from", "unpack")]
+        off_ok = False
+        if un:
+            a = un[0].extra["term"].args
+            off = a[-1] if a else None
+            off_ok = off is not None and lin(off) == {"c": 1}
+        ctx.check(off_ok, RH, "decoder: the head is unpacked at the cursor", f"unpack call `{un[0].text[:80] if un else None}` does not read at the cursor", where)
+        ys = [e for e in b.evs if e.kind == "yield"]
+        nm_ok, got = False, None
+        if ys and isinstance(ys[0].extra.get("term"), ast.Tuple) and len(ys[0].extra["term"].elts) == 4:
+            nm = ys[0].extra["term"].elts[3]
+            sl = next((x for x in ast.walk(nm) if isinstance(x, ast.Subscript) and isinstance(x.slice, ast.Slice)), None)
+            if sl is not None and sl.slice.lower is not None and sl.slice.upper is not None:
+                got = (lin(sl.slice.lower), lin(sl.slice.upper))
+                nm_ok = got == ({"c": 1, **H}, {"c": 1, "n": 1, **H})
+        ctx.check(nm_ok, RH, "decoder: the name is buffer[cursor + header size : cursor + header size + len]", f"the name slice has bounds {got}; expected cursor+{size} : cursor+{size}+len", where)
+        cur_names = {x.id.split("@")[0] for e in b.evs if isinstance(e.extra.get("term"), ast.AST) for x in ast.walk(e.extra["term"]) if isinstance(x, ast.Name) and re.fullmatch(r"\w+@L\d+", x.id)}
+        adv = [e for e in b.evs if e.kind == "assign" and e.extra.get("name") in cur_names]
+        adv_ok = bool(adv) and lin(adv[-1].extra.get("term")) == {"c": 1, "n": 1, **H}
+        ctx.check(adv_ok, RH, "decoder: the cursor advances by header size + len", f"the cursor becomes `{adv[-1].text[:80] if adv else None}`; expected cursor + {size} + len: records after the first are mis-aligned", where)
 
 
 def run(ctx) -> None:
